@@ -107,11 +107,13 @@ def key_of(c):
     return json.dumps(c, sort_keys=True)
 
 
-def drive(hbin, spath, n_sessions, per_call_timeout=20):
-    """run the session file in a child process under a watchdog; returns event tuples"""
+def drive(hbin, spath, n_sessions, per_call_timeout=20, max_stuck=4):
+    """run the session file in a child process under a watchdog; returns event tuples.  After a few calls that did
+    not return the exploration stops (each costs the full watchdog time and the verdict is already decided)"""
     events = []
     start = 0
-    while start < n_sessions:
+    stuck = 0
+    while start < n_sessions and stuck < max_stuck:
         p = subprocess.Popen([hbin, "session", "--sessions", spath, "--start", str(start)], stdout=subprocess.PIPE,
                              stderr=subprocess.DEVNULL, text=True, bufsize=1)
         cur = None       # (session, k) announced and not finished
@@ -123,12 +125,14 @@ def drive(hbin, spath, n_sessions, per_call_timeout=20):
                 p.kill()
                 p.wait()
                 events.append(("hang", cur))
+                stuck += 1
                 break
             line = p.stdout.readline()
             if line == "":
                 rc = p.wait()
                 if cur is not None:
                     events.append(("exit", cur, rc))
+                    stuck += 1
                 else:
                     ended = True
                 break
